@@ -87,7 +87,7 @@ func cmdManifest() {
 		"engines":        engs,
 		"checks":         checks,
 		"not_applicable": na,
-		"notes":          "Technique: deterministic simulation with fault injection. One integer (VERIF_SEED) decides every scenario, delay, fault and strategy; workers are single-P processes; every violation is confirmed, minimised and replayed three times from its replay file before it is reported. Known genuine defects are listed in /verif/known_findings.json (status known = recorded, fixed = repaired in /repo by a `fix:` commit; DESIGN.md A.5). /repo carries no hook commits; its commits on top of the snapshot are the repairs 7de6e37, a36d606, b2e0bf5, 471b944, db37a1e, 5d19556.",
+		"notes":          "Technique: deterministic simulation with fault injection. One integer (VERIF_SEED) decides every scenario, delay, fault and strategy; workers are single-P processes; every violation is confirmed, minimised and replayed three times from its replay file before it is reported. Known genuine defects are listed in /verif/known_findings.json (status known = recorded, fixed = repaired in /repo by a `fix:` commit; DESIGN.md A.5). /repo carries no hook commits; its commits on top of the snapshot are the repairs 7de6e37, a36d606, b2e0bf5, 471b944, db37a1e, 5d19556, efad93a.",
 	}
 	data, _ := json.MarshalIndent(m, "", " ")
 	if err := os.WriteFile(filepath.Join(verifDir, "MANIFEST.json"), append(data, '\n'), 0o644); err != nil {
